@@ -7,7 +7,7 @@ from ..ev import PyRaise
 from ..interp import Interp, make_callable, FuncVal
 from ..src import Unknown
 from .common import C, levels, micro_versions, modes, table_ob, need, single
-from .models import BufModel, SegModel, SegmentsModel, encoder_env
+from .models import SAModel, BufModel, SegModel, SegmentsModel, encoder_env
 from . import p04, wrappers
 
 explain('C08', '''Decided (structural): encode_sequence is control code over (content length, options); it is interpreted
@@ -209,12 +209,7 @@ def r3(fx):
     sm = single([s for s in enc.body if isinstance(s, ast.Assign) and ast.unparse(s.targets[0]) == 'sa_mode'], 'sa_mode')
     yield ob('sa_mode = sa_info is not None', nf.same(sm.value, 'sa_info is not None'), sm, got=ast.unparse(sm.value), want='sa_info is not None')
 
-    class SA(tuple):
-        _model = ('parity', 'number', 'total', 'mode')
-        mode = property(lambda s: s[0])
-        number = property(lambda s: s[1])
-        total = property(lambda s: s[2])
-        parity = property(lambda s: s[3])
+    SA = SAModel
     buf = BufModel()
     it.block(sa_if.body, dict(genv, buff=buf, sa_info=SA((3, 9, 11, 0xC4))))
     yield ob('header bits', buf.appends == [(3, 4), (9, 4), (11, 4), (0xC4, 8)], sa_if, got=buf.appends,
